@@ -23,12 +23,32 @@ pub struct Prog {
     pub naming: u8,
 }
 
+const PEEL_BASE: &str = "[\u{3000}(\u{e9}{<\u{10428}|a|b\u{6f22}>}c) ]xyz\u{20ac}q";
 const NEST_BASE: &str = "é1€3𝄞5ü7ß9abcxyz";
 fn state_name(naming: u8, i: u8) -> String {
+    static CACHE: std::sync::OnceLock<Vec<Vec<String>>> = std::sync::OnceLock::new();
+    let c = CACHE.get_or_init(|| (0..5u8).map(|n| (0..16u8).map(|i| state_name_uncached(n, i)).collect()).collect());
+    if (naming as usize) < c.len() && (i as usize) < 16 {
+        return c[naming as usize][i as usize].clone();
+    }
+    state_name_uncached(naming, i)
+}
+fn state_name_uncached(naming: u8, i: u8) -> String {
     match naming {
         0 => format!("{i}"),
         1 => format!("é{}€", "𝄞".repeat(i as usize)),
-        _ => NEST_BASE.chars().take(14usize.saturating_sub(i as usize)).collect(),
+        2 => NEST_BASE.chars().take(14usize.saturating_sub(i as usize)).collect(),
+        // 3: state i is state 0 with i characters peeled off BOTH ends (a rule may return an interior view of its input)
+        3 => {
+            let cs: Vec<char> = PEEL_BASE.chars().collect();
+            let i = (i as usize).min(cs.len() / 2);
+            cs[i..cs.len() - i].iter().collect()
+        }
+        // 4: lengths that differ by orders of magnitude (an application may grow or shrink the string enormously)
+        _ => {
+            const LENS: [usize; 13] = [1, 0, 40, 2000, 2, 5000, 37, 3, 700, 19, 100, 5, 64];
+            "\u{e9}x".repeat(LENS[i as usize % 13]).chars().take(LENS[i as usize % 13]).collect()
+        }
     }
 }
 fn err_of(e: u8) -> Error {
@@ -83,6 +103,15 @@ pub fn check_prog(p: &Prog, l: &mut Local) -> Check {
                 if p.naming == 2 && t > i && (p.borrow_mask >> (8 + t % 8)) & 1 == 1 {
                     let n = state_name(2, t).len();
                     return Ok(Cow::Borrowed(&s[..n]));
+                }
+                if p.naming == 3 && t > i && (p.borrow_mask >> (8 + t % 8)) & 1 == 1 {
+                    // an interior view: the target is the input with (t-i) characters peeled off both ends
+                    let target = state_name(3, t);
+                    if let Some(at) = s.find(target.as_str()) {
+                        if at > 0 && !target.is_empty() {
+                            return Ok(Cow::Borrowed(&s[at..at + target.len()]));
+                        }
+                    }
                 }
                 return Ok(Cow::Owned(state_name(p.naming, t)));
             }
@@ -151,7 +180,8 @@ pub fn run(run: &Run) {
     run.set_rule(
         "Generator ('programs'): (a) ALL functions f: S -> S + {Err1, Err2} on k states for k <= K (K=6 quick, 7 thorough) from every start state, with opaque and with nested-prefix state strings \
          (total/failing, converging after 0..3 changes, cycles of every length, tails), with the start passed as &str; (b) proptest functions on up to \
-         12 states with three error kinds, diverging continuation (s -> s+'a'), Cow::Borrowed vs Cow::Owned for unchanged results, borrowed SUB-SLICES of the input for changed results (nested-prefix state strings), start passed as \
+         12 states with three error kinds, diverging continuation (s -> s+'a'), Cow::Borrowed vs Cow::Owned for unchanged results, borrowed SUB-SLICES of the input for changed results (nested-prefix and peeled-on-both-ends state strings, with borrowed and owned start values), \
+         state strings whose lengths differ by orders of magnitude (0 .. 5 000 characters), start passed as \
          &str / String / Cow::Borrowed / Cow::Owned, ASCII and multi-byte state strings. Oracle: reference stabilize (apply up to 4 times, accept the \
          first x with f(x)=x, propagate f's error, else Invalid) + instrumented closure: arguments follow the orbit of the start, <= 4 applications, \
          result is a fixed point. Non-trivial: at least one application changed the string; distinct = distinct (table,start,naming).",
@@ -175,8 +205,11 @@ pub fn run(run: &Run) {
                     rem /= base;
                 }
                 for start in 0..k as u8 {
-                    for naming in [0u8, 2u8] {
-                        let p = Prog { table: table.clone(), start, borrow_mask: (idx as u32).wrapping_mul(2654435761) | if naming == 2 { 0xff00 } else { 0 }, arg_form: 0, naming };
+                    for (naming, arg_form) in [(0u8, 0u8), (2, 0), (2, 1), (3, 1), (3, 0), (4, (idx % 4) as u8)] {
+                        if naming == 4 && k > 5 && idx % 8 != 0 {
+                            continue; // the huge strings of naming 4 are sampled for the larger k
+                        }
+                        let p = Prog { table: table.clone(), start, borrow_mask: (idx as u32).wrapping_mul(2654435761) | if naming >= 2 { 0xff00 } else { 0 }, arg_form, naming };
                         l.cases += 1;
                         if let Err(v) = check_prog(&p, l) {
                             run.violate(v);
@@ -190,7 +223,7 @@ pub fn run(run: &Run) {
     }
     let mk = || {
         (1usize..=12).prop_flat_map(|k| {
-            (vec(0u8..(k as u8 + 3), k), 0u8..k as u8, any::<u32>(), 0u8..4, 0u8..3)
+            (vec(0u8..(k as u8 + 3), k), 0u8..k as u8, any::<u32>(), 0u8..4, 0u8..5)
                 .prop_map(|(table, start, borrow_mask, arg_form, naming)| Prog { table, start, borrow_mask, arg_form, naming })
         })
     };
